@@ -21,8 +21,9 @@
    * to_paragraph is evaluated when the paragraph is pushed, as in the code; only the pure conversion
      label -> Fraction (to_temporal_offset) is postponed to `finish`, so that the pushed paragraphs still
      carry time codes (the theorems about stamps are stated on those).
-   * An uncaught Python exception (AttributeError on a missing active caption, ValueError on a malformed
-     word) is the absorbing flag c_err.
+   * An uncaught Python exception is the absorbing flag c_err.  The only one left is the ValueError of
+     SccWord.from_str on a malformed word (process_line); since the repair of context.py (backspace, extended
+     character or tab offset while no caption is being processed: the code is ignored) no word raises.
    No proofs in this file. *)
 From Coq Require Import QArith.
 From TT Require Import Base.Prelude Base.SccTypes Base.SccDoc Gen.SccTables Model.SccWord Model.TimeCode.
@@ -445,10 +446,11 @@ Definition flip (c : ctx) (t : tcv) : ctx :=
             end in
   let c3 := with_act c2 (Some (c_buf c2)) in
   match temp with Some tp => with_buf c3 tp | None => new_buffered_caption c3 end.
-(* backspace(): on a missing caption Python raises AttributeError *)
+(* backspace(): when no caption is being processed (caption style undefined, or roll-up / paint-on style without an
+   active caption) the code is ignored (since the repair; it was: AttributeError) *)
 Definition backspace (c : ctx) : ctx :=
   match cap_to_process c with
-  | None => with_err c
+  | None => c
   | Some _ =>
       upd_cap c (fun p => let p1 := upd_cur_text p text_backspace in
                           set_cursor_at p1 (fst (p_cursor p1)) (Z.max (snd (p_cursor p1) - 1) 0))
@@ -564,8 +566,7 @@ Definition process_text (c : ctx) (word : text) : ctx :=
     else c in
   sync_acur c1.
 
-(* process_control_code; the result flag says whether the method returned normally (always, except that an
-   AttributeError is recorded in c_err) *)
+(* process_control_code (the method always returns normally) *)
 Definition process_control (c : ctx) (code : Z) : ctx :=
   let t := c_tc c in
   if code =? kRCL then with_style c sPopOn
@@ -589,8 +590,9 @@ Definition process_control (c : ctx) (code : Z) : ctx :=
     match c_act c with Some _ => push_active c (Some (tc_next t)) true | None => c end
   else if code =? kENM then new_buffered_caption c
   else if (code =? kTO1) || (code =? kTO2) || (code =? kTO3) then
+    (* Tab Offset: ignored when no caption is being processed (since the repair; it was: AttributeError) *)
     match cap_to_process c with
-    | None => with_err c
+    | None => c
     | Some _ => upd_cap c (fun p => indent_cursor p (code - kTO1 + 1))
     end
   else if code =? kCR then
@@ -721,12 +723,17 @@ Definition flush (c : ctx) : ctx := new_buffered_caption (push_active c None tru
 
 (* the document, with times as Fractions *)
 Definition omap {A B} (f : A -> B) (o : option A) : option B := match o with Some x => Some (f x) | None => None end.
+(* max(x, 0) on Fractions *)
+Definition qmax0 (x : Q) : Q := if Qle_bool 0 x then x else 0%Q.
+(* a paint-on span begin is made relative to the paragraph: begin = max(begin - p_begin, 0) (since the repair: text painted
+   before its paragraph begins - a paint-on caption that went through the buffer and was flipped back by a later EOC - is
+   shown from the beginning of the paragraph; it was: begin - p_begin, negative) *)
 Definition finish_child (paint : bool) (pb : option tcv) (ch : child) : childq :=
   match ch with
   | CBr => QBr
   | CSpan b st tx =>
       QSpan (match b with
-             | Some bt => Some (if paint then match pb with Some pbt => Qminus (tc_offset bt) (tc_offset pbt) | None => tc_offset bt end
+             | Some bt => Some (if paint then match pb with Some pbt => qmax0 (Qminus (tc_offset bt) (tc_offset pbt)) | None => tc_offset bt end
                                 else tc_offset bt)
              | None => None
              end) st tx
